@@ -18,6 +18,7 @@ import os
 import re
 import shutil
 import subprocess
+import time
 
 import vlib
 
@@ -170,12 +171,12 @@ def gen_coq(tab):
     L.append("Local Open Scope string_scope.")
     L.append("")
     L.append("(* rust_keywords.rs: RUST_KEYWORDS *)")
-    L.append("Definition RUST_KEYWORDS : list name :=\n  %s." % coq_name_list(tab["rust_keywords"]))
+    L.append("Definition RUST_KEYWORDS : list name := Eval vm_compute in\n  %s." % coq_name_list(tab["rust_keywords"]))
     L.append("(* rust_keywords.rs: is_keyword = `%s` *)" % tab["is_keyword_body"])
     L.append("Definition gen_is_rust_keyword (n : name) : bool := mem n RUST_KEYWORDS.")
     L.append("")
     L.append("(* keywords.rs: KEYWORDS canonical spellings, then aliases *)")
-    L.append("Definition INCAN_KEYWORDS : list name :=\n  %s." % coq_name_list(ik))
+    L.append("Definition INCAN_KEYWORDS : list name := Eval vm_compute in\n  %s." % coq_name_list(ik))
     L.append("(* keywords.rs: from_str = canonical or alias; lexer keyword_id = from_str *)")
     L.append("Definition gen_keyword_id_is_some (n : name) : bool := mem n INCAN_KEYWORDS.")
     L.append("")
@@ -194,7 +195,7 @@ def gen_coq(tab):
     L.append("Definition SITES : list site := [\n%s\n]." % ";\n".join(rows))
     L.append("")
     L.append("(* `__`-prefixed identifiers written literally inside quote! bodies of the emitter *)")
-    L.append("Definition FIXED_TEMPORARIES : list name :=\n  %s." % coq_name_list(tab["fixed_temporaries"]))
+    L.append("Definition FIXED_TEMPORARIES : list name := Eval vm_compute in\n  %s." % coq_name_list(tab["fixed_temporaries"]))
     return "\n".join(L) + "\n"
 
 
@@ -214,3 +215,655 @@ def write_generated(tab):
             f.write(text)
         os.replace(p + ".tmp", p)
     return hashlib.sha1(text.encode()).hexdigest()[:16], old is not None and old != text
+
+
+# ------------------------------------------------------------------------------------------- programs
+
+# One small program per binding position. @N@ is the name under test. `labels`: the POSITIONS labels of the
+# emitter sites the name passes through in that program (the model predicts "Rust accepts the output" iff every
+# site carrying one of these labels yields a valid identifier). `ns`: "value" | "type" (Rust namespace of the
+# binding), `item`: the binding is a module-level item (clashes with the template's own `main`).
+TEMPLATES = {
+    "variable": dict(src="def main() -> None:\n    @N@ = 1\n    println(@N@ + 1)\n", labels=["variable"]),
+    "mut_variable": dict(src="def main() -> None:\n    mut @N@ = 1\n    @N@ = @N@ + 1\n    println(@N@)\n", labels=["variable"]),
+    "typed_variable": dict(src="def main() -> None:\n    @N@: int = 1\n    println(@N@)\n", labels=["variable"]),
+    "fstring_variable": dict(src="def main() -> None:\n    @N@ = 1\n    println(f\"v={@N@}\")\n", labels=["variable"]),
+    "sorted_variable": dict(src="def main() -> None:\n    @N@ = [3, 1, 2]\n    ys = sorted(@N@)\n    println(len(ys))\n", labels=["variable"]),
+    "parameter": dict(src="def f(@N@: int) -> int:\n    return @N@ + 1\n\ndef main() -> None:\n    println(f(1))\n",
+                      labels=["function-parameter", "variable"]),
+    "kwarg_call": dict(src="def f(@N@: int) -> int:\n    return @N@\n\ndef main() -> None:\n    println(f(@N@=1))\n",
+                       labels=["function-parameter", "variable"]),
+    "function": dict(src="def @N@() -> int:\n    return 1\n\ndef main() -> None:\n    println(@N@())\n",
+                     labels=["function-name", "variable"], item=True, call0=True),
+    "function_with_arg": dict(src="def @N@(a: int) -> int:\n    return a\n\ndef main() -> None:\n    println(@N@(2))\n",
+                              labels=["function-name", "variable"], item=True),
+    "field": dict(src="class P:\n    @N@: int\n\ndef main() -> None:\n    p = P(@N@=1)\n    println(p.@N@)\n",
+                  labels=["field-name", "field-init", "field-access"]),
+    "model_field": dict(src="model P:\n    @N@: int\n\ndef main() -> None:\n    p = P(@N@=1)\n    println(p.@N@)\n",
+                        labels=["field-name", "field-init", "field-access"]),
+    "field_assign": dict(src="class P:\n    @N@: int\n\ndef main() -> None:\n    mut p = P(@N@=1)\n    p.@N@ = 2\n    println(p.@N@)\n",
+                         labels=["field-name", "field-init", "field-access", "field-assign"]),
+    "method": dict(src="class P:\n    v: int\n\n    def @N@(self) -> int:\n        return self.v\n\ndef main() -> None:\n    p = P(v=1)\n    println(p.@N@())\n",
+                   labels=["method-name", "method-call"]),
+    "method_param": dict(src="class P:\n    v: int\n\n    def get(self, @N@: int) -> int:\n        return self.v + @N@\n\ndef main() -> None:\n    p = P(v=1)\n    println(p.get(2))\n",
+                         labels=["method-parameter", "variable"]),
+    "static_method": dict(src="class P:\n    v: int\n\n    def @N@() -> int:\n        return 7\n\ndef main() -> None:\n    println(P.@N@())\n",
+                          labels=["method-name", "associated-function-call"]),
+    "class_name": dict(src="class @N@:\n    v: int\n\ndef main() -> None:\n    p = @N@(v=1)\n    println(p.v)\n",
+                       labels=["struct-name"], item=True, ns="type"),
+    "model_name": dict(src="model @N@:\n    v: int\n\ndef main() -> None:\n    p = @N@(v=1)\n    println(p.v)\n",
+                       labels=["struct-name"], item=True, ns="type"),
+    "class_with_method_name": dict(src="class @N@:\n    v: int\n\n    def value_of(self) -> int:\n        return self.v\n\ndef main() -> None:\n    p = @N@(v=1)\n    for i in range(2):\n        println(p.value_of() + i)\n",
+                                   labels=["struct-name", "impl-target-type"], item=True, ns="type"),
+    "param_type_name": dict(src="class @N@:\n    v: int\n\ndef f(p: @N@) -> int:\n    return p.v\n\ndef main() -> None:\n    println(f(@N@(v=1)))\n",
+                            labels=["struct-name", "type-name"], item=True, ns="type"),
+    "newtype_name": dict(src="type @N@ = newtype int\n\ndef main() -> None:\n    u = @N@(3)\n    println(u.0)\n",
+                         labels=["struct-name"], item=True, ns="type"),
+    # `type N = int` is lowered to a newtype struct (IrDeclKind::TypeAlias is not produced for it)
+    "type_alias": dict(src="type @N@ = int\n\ndef main() -> None:\n    println(1)\n", labels=["struct-name"], item=True, ns="type"),
+    "enum_name": dict(src="enum @N@:\n    A\n    B\n\ndef main() -> None:\n    e = @N@.A\n    match e:\n        case @N@.A:\n            println(1)\n        case @N@.B:\n            println(2)\n",
+                      labels=["enum-name", "type-name-in-path", "enum-pattern-path-segment"], item=True, ns="type"),
+    "enum_variant": dict(src="enum E:\n    @N@\n    Other\n\ndef main() -> None:\n    e = E.@N@\n    match e:\n        case E.@N@:\n            println(1)\n        case E.Other:\n            println(2)\n",
+                         labels=["enum-variant", "enum-variant-or-assoc-in-path"]),
+    "enum_variant_payload": dict(src="enum E:\n    @N@(int)\n    Other\n\ndef main() -> None:\n    e = E.@N@(3)\n    match e:\n        case E.@N@(v):\n            println(v)\n        case E.Other:\n            println(2)\n",
+                                 labels=["enum-variant"]),
+    "const": dict(src="const @N@: int = 5\n\ndef main() -> None:\n    println(@N@)\n", labels=["const-name", "variable"], item=True),
+    "loop_variable": dict(src="def main() -> None:\n    for @N@ in range(3):\n        println(@N@)\n", labels=["pattern-binding", "variable"]),
+    "match_binding": dict(src="def main() -> None:\n    o: Option[int] = Some(1)\n    match o:\n        case Some(@N@):\n            println(@N@)\n        case None:\n            println(0)\n",
+                          labels=["pattern-binding", "variable"]),
+    "import_alias": dict(src="import rust::std::collections::HashMap as @N@\n\ndef main() -> None:\n    println(1)\n", labels=["import-alias"], item=True, ns="type"),
+    "from_import_alias": dict(src="from rust::std::collections import HashMap as @N@\n\ndef main() -> None:\n    println(1)\n",
+                              labels=["from-import-alias"], item=True, ns="type"),
+    "list_comp_variable": dict(src="def main() -> None:\n    xs = [1, 2, 3]\n    ys = [@N@ * 2 for @N@ in xs]\n    println(len(ys))\n",
+                               labels=["comprehension-variable", "variable"]),
+    "dict_comp_variable": dict(src="def main() -> None:\n    xs = [1, 2, 3]\n    ys = {@N@: @N@ * 2 for @N@ in xs}\n    println(len(ys))\n",
+                               labels=["comprehension-variable", "variable"]),
+    "closure_param": dict(src="def main() -> None:\n    f = (@N@) => @N@ + 1\n    println(f(1))\n", labels=["closure-parameter", "variable"]),
+    "trait_name": dict(src="trait @N@:\n    def area(self) -> int\n\nclass S with @N@:\n    v: int\n\n    def area(self) -> int:\n        return self.v\n\ndef main() -> None:\n    s = S(v=1)\n    println(s.area())\n",
+                       labels=["trait-name", "trait-name-in-impl"], item=True, ns="type"),
+    "trait_method": dict(src="trait T:\n    def @N@(self) -> int\n\nclass S with T:\n    v: int\n\n    def @N@(self) -> int:\n        return self.v\n\ndef main() -> None:\n    s = S(v=1)\n    println(s.@N@())\n",
+                         labels=["trait-method-name", "method-name", "method-call"]),
+    "trait_method_param": dict(src="trait T:\n    def area(self, @N@: int) -> int\n\nclass S with T:\n    v: int\n\n    def area(self, @N@: int) -> int:\n        return self.v + @N@\n\ndef main() -> None:\n    s = S(v=1)\n    println(s.area(2))\n",
+                               labels=["trait-method-parameter", "method-parameter", "variable"]),
+    "module_name": dict(src="from @N@ import helper\n\ndef main() -> None:\n    println(helper())\n",
+                        modules=[["@N@", "pub def helper() -> int:\n    return 1\n"]], labels=["import-path-segment"], item=True, ns="type", norustc=True),
+    "imported_function": dict(src="from zqmod import @N@\n\ndef main() -> None:\n    println(@N@())\n",
+                              modules=[["zqmod", "pub def @N@() -> int:\n    return 1\n"]], labels=["imported-item-name", "variable"],
+                              item=True, norustc=True, call0=True),
+}
+
+
+def neutral_for(n, pos=None):
+    if pos is not None and TEMPLATES[pos].get("call0") and n[0].isupper():
+        return NEUTRAL["lower"]   # a callable: the honest comparison is with a lower-case function name
+    if n.startswith("_"):
+        return NEUTRAL["under"]
+    if n[0].isupper():
+        return NEUTRAL["const"] if (len(n) > 1 and n.upper() == n) else NEUTRAL["upper"]
+    return NEUTRAL["lower"]
+
+
+def instantiate(pos, n):
+    t = TEMPLATES[pos]
+    c = {"id": [pos, n], "src": t["src"].replace("@N@", n)}
+    if t.get("modules"):
+        c["modules"] = [[a.replace("@N@", n), b.replace("@N@", n)] for a, b in t["modules"]]
+    return c
+
+
+def run_emit(binary, cases, jobs=8):
+    import concurrent.futures
+    chunks = [cases[i::jobs] for i in range(jobs)] if len(cases) >= 4 * jobs else [cases]
+    chunks = [c for c in chunks if c]
+
+    def one(chunk):
+        text = "\n".join(json.dumps(c) for c in chunk) + "\n"
+        return vlib.run_harness(binary, ["run", "c13", "emit"], text, timeout=1200)
+
+    res = {}
+    with concurrent.futures.ThreadPoolExecutor(max_workers=jobs) as ex:
+        for out in ex.map(one, chunks):
+            for line in out.split("\n"):
+                if line:
+                    r = json.loads(line)
+                    res[tuple(r["id"])] = r
+    if len(res) != len(cases):
+        raise vlib.Infra("c13 emit returned %d results for %d cases" % (len(res), len(cases)))
+    return res
+
+
+def subst_tokens(tokens, neutral, emitted, plain):
+    """The neutral program's token stream with the neutral identifier replaced by the model's emitted
+    identifier (and by the plain spelling inside string literals, e.g. derived Display/variant names)."""
+    out = []
+    for t in tokens:
+        if t == neutral:
+            out.append(emitted)
+        elif t.startswith('"') and neutral in t:
+            out.append(t.replace(neutral, plain))
+        else:
+            out.append(t)
+    return out
+
+
+def first_diff(a, b):
+    for i, (x, y) in enumerate(zip(a, b)):
+        if x != y:
+            return " ".join(a[max(0, i - 5):i + 6]) + "   <>   " + " ".join(b[max(0, i - 5):i + 6])
+    if len(a) != len(b):
+        return "length %d <> %d" % (len(a), len(b))
+    return ""
+
+
+# ------------------------------------------------------------------------------------------- rustc batch
+
+def rustc_batch(programs, tag):
+    """programs: dict id(str) -> rust source. ONE cargo package whose main.rs declares one module per program
+    (each generated file keeps its own inner attributes, imports and `fn main`), `cargo check` in the shared
+    target dir; errors are attributed to programs by file name; because rustc stops at the first failing phase,
+    failing modules are removed and the check repeated until the rest is clean. Returns id -> (ok, first error)."""
+    if not programs:
+        return {}
+    d = os.path.join(vlib.BUILD, "c13-rustc-%s-%d" % (tag, os.getpid()))
+    shutil.rmtree(d, ignore_errors=True)
+    os.makedirs(os.path.join(d, "src"))
+    repo = os.path.realpath(vlib.REPO)
+    ids = sorted(programs)
+    names = {}
+    for k, i in enumerate(ids):
+        b = "c%04d" % k
+        names[b] = i
+        with open(os.path.join(d, "src", b + ".rs"), "w") as f:
+            f.write(programs[i])
+    with open(os.path.join(d, "Cargo.toml"), "w") as f:
+        f.write('[package]\nname = "c13batch"\nversion = "0.1.0"\nedition = "2021"\n\n[workspace]\n\n[dependencies]\n'
+                'incan_stdlib = { path = "%s/crates/incan_stdlib" }\nincan_derive = { path = "%s/crates/incan_derive" }\n' % (repo, repo))
+    target = os.path.join(vlib.BUILD, "gen-target" if repo == "/repo" else "gen-target-alt")
+    res = {i: (True, "") for i in ids}
+    live = sorted(names)
+    try:
+        for _round in range(12):
+            with open(os.path.join(d, "src", "main.rs"), "w") as f:
+                f.write("#![allow(warnings)]\n" + "".join("mod %s;\n" % b for b in live) + "fn main() {}\n")
+            with vlib.Lock("c13-gen-target"):
+                rc, out, err = vlib.sh(["cargo", "check", "--offline", "--message-format=json", "-q"],
+                                       cwd=d, env={"CARGO_TARGET_DIR": target}, timeout=3000)
+            failed = set()
+            for line in out.split("\n"):
+                if not line.startswith("{"):
+                    continue
+                try:
+                    m = json.loads(line)
+                except ValueError:
+                    continue
+                if m.get("reason") != "compiler-message" or m["message"].get("level") != "error":
+                    continue
+                tname = m.get("target", {}).get("name")
+                if tname != "c13batch":
+                    raise vlib.Infra("rustc batch: dependency %s does not compile: %s" % (tname, m["message"].get("message")))
+                files = [sp.get("file_name", "") for sp in m["message"].get("spans", [])]
+                mods = [os.path.basename(fn)[:-3] for fn in files if os.path.basename(fn)[:-3] in names]
+                for b in mods[:1]:
+                    failed.add(b)
+                    i = names[b]
+                    if res[i][0]:
+                        code = (m["message"].get("code") or {}).get("code") or ""
+                        res[i] = (False, (code + " " + m["message"].get("message", ""))[:200])
+            if rc == 0:
+                return res
+            if not failed:
+                raise vlib.Infra("rustc batch failed without an attributable error: " + (err or out)[-1500:])
+            live = [b for b in live if b not in failed]
+        raise vlib.Infra("rustc batch did not converge")
+    finally:
+        shutil.rmtree(d, ignore_errors=True)
+
+
+# ------------------------------------------------------------------------------------------- model evaluation
+
+REQ = ("From Coq Require Import ZArith List Bool String.\nFrom Verif Require Import C13.Defs Gen.C13Sites C13.Model.\n"
+       "Import ListNotations.\nOpen Scope Z_scope.")
+
+
+def zs(s):
+    return "[" + "; ".join(str(ord(c)) for c in s) + "]"
+
+
+def unz(l):
+    return "".join(chr(c) for c in l)
+
+
+def model_names(names):
+    """render_name for every name: dict name -> {legal, esc, valid, rk, ik}."""
+    terms = ["render_name %s" % zs(n) for n in names]
+    out = vlib.coq_eval(REQ, "Z * list Z * Z * Z * Z", "fun x => x", terms, tag="c13n")
+    res = {}
+    for n, r in zip(names, out):
+        legal, esc, valid, rk, ik = r
+        res[n] = {"legal": bool(legal), "esc": unz(esc), "valid": bool(valid), "rk": bool(rk), "ik": bool(ik)}
+    return res
+
+
+def model_sites(n_sites, names):
+    """valid_rust_ident (emit_ident s n) and emit_ident for every site x name: dict (k, name) -> (emitted, valid)."""
+    terms = ["(map (fun k => render_site k %s) (seq 0 %d))" % (zs(n), n_sites) for n in names]
+    out = vlib.coq_eval(REQ, "list (list Z * Z)", "fun x => x", terms, tag="c13s", shard=40)
+    res = {}
+    for n, row in zip(names, out):
+        for k, (e, v) in enumerate(row):
+            res[(k, n)] = (unz(e), bool(v))
+    return res
+
+
+def model_tables():
+    terms = ["UNRESERVED_RUST_KEYWORDS", "NOT_RAWABLE_LEGAL", "FIXED_NAMES"]
+    out = vlib.coq_eval(REQ, "list name", "fun x => x", terms, tag="c13t")
+    return [[unz(x) for x in l] for l in out]
+
+
+# ------------------------------------------------------------------------------------------- known findings
+
+ITEM_LABEL_POSITIONS = None
+
+
+def finding_sites(findings):
+    s = {}
+    for f in findings:
+        if f.get("status") == "known":
+            for sid in f.get("sites", []):
+                s[sid] = f["id"]
+    return s
+
+
+def random_ident(rng):
+    first = "abcdefghijklmnopqrstuvwxyzABCDEFGHIJKLMNOPQRSTUVWXYZ_"
+    rest = first + "0123456789"
+    k = rng.choice([1, 2, 3, 5, 8, 13, 30])
+    return rng.choice(first) + "".join(rng.choice(rest) for _ in range(k - 1))
+
+
+def run(chk):
+    chk.trusted = [
+        "Coq 8.16.1 kernel (coqc; vm_compute only on closed finite checks over the generated tables)",
+        "the syn-based extractor `vharness run c13 sites` + the table printer in checks/c13.py (recognises fixed shapes of "
+        "RUST_KEYWORDS/is_keyword, KEYWORDS/from_str, is_ident_start/continue, scan_identifier, escape_keyword, format_ident!/Ident::new; "
+        "anything else is reported as tie-broken)",
+        "coq/C13/Model.v: hand-written spec of a valid Rust identifier (Rust Reference keywords 2021, raw identifiers) and the "
+        "hand model emit_ident = prefix ++ (escape_keyword n | n) ++ suffix; POSITIONS labels in checks/c13.py",
+        "vharness c13 emit adapter (IrCodegen::try_generate + syn::parse_file + token flattening), proc-macro2/syn/quote, rustc/cargo for the batch",
+    ]
+    chk.assumptions = [
+        "generated projects are edition 2021 (`gen` not reserved); identifiers are ASCII (the lexer rejects anything else)",
+        "FIXED_PRELUDE (names the generated code relies on besides the extracted `__` temporaries) is a hand list",
+        "the semantic half of C13 ('what it does') is covered only through token-stream equality modulo the renaming, not by running programs",
+    ]
+    if not chk.findings and os.path.exists(os.path.join(vlib.BUILD, "kf-C13.json")):
+        # TEMPORARY FALLBACK (lead: drop after merging build/kf-C13.json into known_findings.json)
+        chk.findings = json.load(open(os.path.join(vlib.BUILD, "kf-C13.json")))
+    known = [f for f in chk.findings if f.get("status") == "known"]
+    known_ids = {f["id"] for f in known}
+    known_site = finding_sites(chk.findings)
+
+    t_b = time.time()
+    binary = vlib.build_harness("debug")
+    tab = extract_tables(binary)
+    vlib.log("[c13] harness + table extraction in %.1fs" % (time.time() - t_b))
+    gen_hash, gen_changed = write_generated(tab)
+    chk.coverage["generated_table"] = {"file": "coq/Gen/C13Sites.v", "sha1": gen_hash, "changed_since_last_run": gen_changed,
+                                       "rust_keywords": len(tab["rust_keywords"]), "incan_keywords": len(tab["incan_keywords"]),
+                                       "sites": len(tab["sites"]), "escaped": sum(1 for s in tab["sites"] if s["escaped"]),
+                                       "prefixed": sum(1 for s in tab["sites"] if s["prefix"]),
+                                       "fixed_temporaries": tab["fixed_temporaries"]}
+    t_p = time.time()
+    res = chk.proof_stage("C13", allow_axioms=(), rs2v_units=None)
+    vlib.log("[c13] proof stage in %.1fs (proofs_ok=%s)" % (time.time() - t_p, res["proofs_ok"]))
+    if tab["errors"]:
+        res["tie_ok"] = False
+        res["broken"].append({"what": "extractor", "message": tab["errors"][:10]})
+
+    sites = tab["sites"]
+    label_sites = {}
+    for k, s in enumerate(sites):
+        label_sites.setdefault(POSITIONS.get(s["id"], "unknown"), []).append(k)
+    unescaped_now = [s["id"] for s in sites if not s["escaped"] and not s["prefix"] and not s["suffix"]]
+
+    fails = []        # failing inputs not covered by a listed finding
+    corr_bad = []     # model <> implementation without a property failure
+
+    # ---- site table vs listed findings: a new unescaped site is a new violation
+    new_sites = [sid for sid in unescaped_now if sid not in known_site]
+    chk.coverage["unescaped_sites"] = {"now": len(unescaped_now), "listed": len(known_site),
+                                       "listed_but_gone": sorted(set(known_site) - set(unescaped_now))}
+
+    # ---- names
+    t_b = time.time()
+    model_ok = vlib.coq_build(["C13/Model.vo"])[0]
+    vlib.log("[c13] model build/check in %.1fs" % (time.time() - t_b))
+    if not model_ok:
+        res["tie_ok"] = False
+        res["broken"].append({"what": "model", "message": "C13/Model.v no longer builds against the regenerated tables"})
+    rk_py = [k for k in tab["rust_keywords"]]
+    ik_py = set(k["canonical"] for k in tab["incan_keywords"]) | set(a for k in tab["incan_keywords"] for a in k["aliases"])
+    if model_ok:
+        unreserved, not_rawable, fixed_names = model_tables()
+    else:
+        unreserved = [k for k in rk_py if k not in ik_py]
+        not_rawable, fixed_names = ["Self", "_"], list(tab["fixed_temporaries"])
+    spec_kw = ("as break const continue crate else enum extern false fn for if impl in let loop match mod move mut pub ref return self Self "
+               "static struct super trait true type unsafe use where while async await dyn abstract become box do final macro override priv "
+               "typeof unsized virtual yield try").split()
+    kw_names = sorted(set(unreserved) | set(k for k in spec_kw if k not in ik_py and k not in ("Self",)))
+    case_names = ["Zqn2", "zqn2", "ZQN2", "_zqn2", "zQn", "z", "Z", "__zqn", "zqn_", "Zqn_Two", "r", "r_loop", "loop_", "Loop", "LOOP", "selfish", "Selfie", "crate_", "gen", "union", "macro_rules", "auto", "default", "dyn_", "raw", "safe"]
+    template_idents = set(re.findall(r"[A-Za-z_][A-Za-z0-9_]*", " ".join(t["src"] + " ".join(b for _, b in t.get("modules", [])) for t in TEMPLATES.values())))
+    rnd = []
+    while len(rnd) < (12 if chk.tier == "quick" else 60):
+        n = random_ident(chk.rng)
+        if n not in rnd and n not in ik_py and n not in rk_py and n != "_" and "zqn" not in n.lower() and n not in template_idents:
+            rnd.append(n)
+    case_names = [n for n in case_names if n not in template_idents]
+    illegal = sorted(ik_py)[:6] + ["match", "def", "None", "True"] if chk.tier == "quick" else sorted(ik_py)
+    illegal = sorted(set(illegal))
+    fixed_probe = [n for n in fixed_names if n not in ik_py]
+    all_names = []
+    for n in kw_names + not_rawable + fixed_probe + case_names + rnd + illegal + list(NEUTRAL.values()):
+        if n not in all_names:
+            all_names.append(n)
+
+    # real vocabulary / keyword verdicts for every name (+ a larger random stream for the keyword predicates)
+    stream = list(all_names)
+    extra = []
+    for _ in range(300 if chk.tier == "quick" else 3000):
+        extra.append(random_ident(chk.rng))
+    for k in rk_py + sorted(ik_py):
+        extra += [k, k + "_", k.capitalize(), k.upper(), "_" + k, k[:-1]]
+    extra = [e for e in dict.fromkeys(extra) if e and e not in stream and re.match(r"^[A-Za-z_][A-Za-z0-9_]*$", e)]
+    vocab_out = vlib.run_harness(binary, ["run", "c13", "vocab"], "\n".join(stream + extra) + "\n")
+    vocab = {}
+    for line in vocab_out.split("\n"):
+        if line:
+            r = json.loads(line)
+            vocab[r["name"]] = r
+    t_m = time.time()
+    mnames = model_names(stream + extra) if model_ok else {}
+    # correspondence 1: the generated keyword predicates and escape_keyword's decision vs the real functions
+    for n in stream + extra:
+        chk.count_case(("name", n), nontrivial=vocab[n]["rust_keyword"] or vocab[n]["incan_keyword"])
+        if not model_ok:
+            continue
+        m = mnames[n]
+        if m["rk"] != vocab[n]["rust_keyword"] or m["ik"] != vocab[n]["incan_keyword"]:
+            corr_bad.append({"name": n, "model": {"rust_keyword": m["rk"], "incan_keyword": m["ik"]},
+                             "impl": {"rust_keyword": vocab[n]["rust_keyword"], "incan_keyword": vocab[n]["incan_keyword"]}})
+    t_m = time.time()
+    msites = model_sites(len(sites), all_names) if model_ok else {}
+    vlib.log("[c13] model: %d names + %d site rows evaluated in coqc in %.1fs" % (len(stream) + len(extra), len(all_names), time.time() - t_m))
+
+    def name_class(n):
+        if model_ok and not mnames[n]["legal"]:
+            return "illegal"
+        if not model_ok and n in ik_py:
+            return "illegal"
+        if n in not_rawable:
+            return "not_rawable"
+        if n in unreserved:
+            return "rust_keyword"
+        if vocab[n]["vocab"]:
+            return "incan_vocabulary"
+        if n in fixed_names:
+            return "fixed"
+        return "plain"
+
+    # ---- cases: every position x every name, plus the neutral program of each case class
+    positions = sorted(TEMPLATES)
+    core_positions = ["variable", "fstring_variable", "sorted_variable", "parameter", "function", "field", "method", "class_name",
+                      "class_with_method_name", "enum_variant", "const", "match_binding", "import_alias"]
+    full = set(kw_names) | set(not_rawable) | set(NEUTRAL.values()) | set(rnd[:4])
+    t_emit = time.time()
+
+    def wanted(pos, n):
+        return chk.tier == "thorough" or n in full or pos in core_positions
+
+    cases = []
+    for pos in positions:
+        for n in all_names:
+            if wanted(pos, n):
+                cases.append(instantiate(pos, n))
+    results = run_emit(binary, cases)
+    vlib.log("[c13] pipeline: %d programs in %.1fs" % (len(cases), time.time() - t_emit))
+
+    dist = {}
+    rust_programs = {}
+    judged = []
+    for pos in positions:
+        t = TEMPLATES[pos]
+        for n in all_names:
+            if n in NEUTRAL.values() or not wanted(pos, n):
+                continue
+            cls = name_class(n)
+            r = results[(pos, n)]
+            nb = neutral_for(n, pos)
+            b = results[(pos, nb)]
+            key = "%s/%s/%s" % (cls, r["stage"], "syn-ok" if r["syn_ok"] else "syn-fail")
+            dist[key] = dist.get(key, 0) + 1
+            chk.count_case((pos, n), nontrivial=(r["stage"] == "ok"))
+            if not (b["stage"] == "ok" and b["syn_ok"]):
+                raise vlib.Infra("neutral program for position %s / %s does not compile: %s %s" % (pos, nb, b["stage"], b["msg"]))
+            if n == "main" and t.get("item"):
+                dist["skipped-clash-with-template-main"] = dist.get("skipped-clash-with-template-main", 0) + 1
+                continue
+            same_verdict = (r["stage"], r["syn_ok"]) == (b["stage"], b["syn_ok"])
+            labels = t["labels"]
+            lsites = [k for l in labels for k in label_sites.get(l, [])]
+            pred_ok = all(msites[(k, n)][1] for k in lsites) if model_ok else None
+            bad_sites = [sites[k]["id"] for k in lsites if model_ok and not msites[(k, n)][1]]
+            emitted = mnames[n]["esc"] if model_ok else n
+            info = {"position": pos, "name": n, "class": cls, "neutral": nb, "source": cases[0]["src"] if False else instantiate(pos, n)["src"],
+                    "expected": "same verdict as the neutral program (%s, syn ok) and the same tokens modulo the renaming" % b["stage"],
+                    "actual": {"stage": r["stage"], "msg": r["msg"][:300], "syn_ok": r["syn_ok"]}}
+            if cls == "illegal":
+                # malformed stream: an Incan keyword is not a name; the front end must say so
+                # (keyword literals are fine in literal positions and `None` is accepted as a variant name: counted, not judged)
+                if r["stage"] not in ("lex", "parse", "dep-lex", "dep-parse"):
+                    dist["incan-keyword-accepted-in-position"] = dist.get("incan-keyword-accepted-in-position", 0) + 1
+                continue
+            if cls == "incan_vocabulary":
+                continue  # clashes with Incan's own vocabulary (builtins/types/constructors): outside the property's quantifier
+            if cls == "not_rawable":
+                # model: no site can emit these; syn accepts `Self`/`_` in some pattern positions, rustc decides (batch below)
+                judged.append((pos, n, cls, same_verdict, None, info))
+                if r["stage"] == "ok" and not t.get("norustc"):
+                    rust_programs["%s|%s" % (pos, n)] = r["rust"]
+                    rust_programs["%s|%s" % (pos, nb)] = b["rust"]
+                continue
+            tok_ok = None
+            if same_verdict and len(n) > 12:
+                tok_ok = True   # prettyplease re-wraps long lines (trailing commas, braces): verdict and rustc only
+                dist["verdict-only(long name)"] = dist.get("verdict-only(long name)", 0) + 1
+            elif same_verdict:
+                want = subst_tokens(b["tokens"], nb, emitted, n)
+                tok_ok = (want == r["tokens"])
+                if not tok_ok:
+                    info["token_diff"] = first_diff(want, r["tokens"])
+            judged.append((pos, n, cls, same_verdict, tok_ok, info))
+            # correspondence 2: the model's prediction of the verdict from the site table
+            if model_ok and pred_ok is not None:
+                impl_ok = r["stage"] == "ok" and r["syn_ok"]
+                if pred_ok != impl_ok:
+                    info2 = dict(info)
+                    info2["model_predicts"] = "valid" if pred_ok else "invalid at sites %s" % bad_sites
+                    if same_verdict and tok_ok and not pred_ok:
+                        corr_bad.append({"what": "model predicts an invalid identifier but the implementation's output is fine", **info2})
+                    elif not same_verdict and pred_ok:
+                        info["model_predicts"] = "valid (every site serving this position escapes)"
+            if same_verdict and tok_ok:
+                if r["stage"] == "ok" and not t.get("norustc") and (chk.tier == "thorough" or cls == "fixed" or
+                                                                    (cls == "rust_keyword" and n in kw_names[:4]) or
+                                                                    n in case_names[:10] or n in rnd[:3]):
+                    rust_programs["%s|%s" % (pos, n)] = r["rust"]
+                    rust_programs["%s|%s" % (pos, nb)] = b["rust"]
+                continue
+            # ---- the renamed program behaves differently: classify
+            suppressed = None
+            if cls == "rust_keyword" and bad_sites and ((not same_verdict and r["stage"] in ("emit", "panic")) or
+                                                        (same_verdict and tok_ok is False)):
+                # in class: the keyword reached an unescaped site (syn rejects it, or accepts it verbatim as in `use m::try`)
+                unlisted = [sid for sid in bad_sites if sid not in known_site]
+                if not unlisted:
+                    suppressed = sorted({known_site[sid] for sid in bad_sites})
+                else:
+                    info["unlisted_unescaped_sites"] = unlisted
+            elif same_verdict and tok_ok is False and t.get("call0") and n[0].isupper() and "capitalised-function" in known_ids:
+                want = subst_tokens(b["tokens"], nb, emitted, n)
+                # the only difference allowed in this class: `N ( )` became `N { }`
+                fixed_up = []
+                i = 0
+                toks = r["tokens"]
+                while i < len(toks):
+                    if toks[i] == emitted and toks[i + 1:i + 3] == ["{", "}"]:
+                        fixed_up += [emitted, "(", ")"]
+                        i += 3
+                    else:
+                        fixed_up.append(toks[i])
+                        i += 1
+                if fixed_up == want:
+                    suppressed = ["capitalised-function"]
+            if suppressed:
+                for fid in suppressed:
+                    dist["known:" + fid] = dist.get("known:" + fid, 0) + 1
+                continue
+            fails.append(info)
+
+    # ---- rustc batch (quick: fixed names, a few keywords and case variants; thorough: everything that reached syn)
+    t_rc = time.time()
+    rust_res = rustc_batch(rust_programs, chk.tier)
+    vlib.log("[c13] rustc batch: %d programs in %.1fs" % (len(rust_programs), time.time() - t_rc))
+    rustc_diff = 0
+    for key, (ok, msg) in sorted(rust_res.items()):
+        pos, n = key.split("|")
+        if n in NEUTRAL.values():
+            if not ok:
+                raise vlib.Infra("neutral program %s does not pass rustc: %s" % (key, msg))
+            continue
+        nb = neutral_for(n, pos)
+        chk.count_case(("rustc", pos, n), nontrivial=True)
+        cls = name_class(n)
+        dk = "rustc/%s/%s" % (cls, "ok" if ok else "error")
+        dist[dk] = dist.get(dk, 0) + 1
+        if ok:
+            continue
+        rustc_diff += 1
+        info = {"position": pos, "name": n, "class": cls, "neutral": nb, "source": instantiate(pos, n)["src"],
+                "expected": "rustc accepts the generated program as it accepts the one for the neutral name %s" % nb,
+                "actual": {"stage": "rustc", "msg": msg}}
+        if cls == "not_rawable" and "not-rawable-names" in known_ids:
+            dist["known:not-rawable-names"] = dist.get("known:not-rawable-names", 0) + 1
+            continue
+        if cls == "fixed" and "fixed-name-collision" in known_ids:
+            dist["known:fixed-name-collision"] = dist.get("known:fixed-name-collision", 0) + 1
+            continue
+        if TEMPLATES[pos].get("call0") and n[0].isupper() and "capitalised-function" in known_ids:
+            dist["known:capitalised-function"] = dist.get("known:capitalised-function", 0) + 1
+            continue
+        fails.append(info)
+    # not-rawable names at syn level: a failure is in-class; nothing else to judge there
+    for pos, n, cls, same_verdict, tok_ok, info in judged:
+        if cls == "not_rawable" and not same_verdict:
+            if "not-rawable-names" in known_ids:
+                dist["known:not-rawable-names"] = dist.get("known:not-rawable-names", 0) + 1
+            else:
+                fails.append(info)
+
+    # ---- new unescaped sites: try to show a failing input through the position's programs
+    for sid in new_sites:
+        label = POSITIONS.get(sid, "unknown")
+        witness = None
+        for pos in positions:
+            if label in TEMPLATES[pos]["labels"] and kw_names:
+                r = results.get((pos, kw_names[0]))
+                if r and not (r["stage"] == "ok" and r["syn_ok"]):
+                    witness = {"position": pos, "name": kw_names[0], "source": instantiate(pos, kw_names[0])["src"],
+                               "actual": {"stage": r["stage"], "msg": r["msg"][:300]}}
+                    break
+        d = {"what": "identifier site bypasses escape_keyword and is not a listed finding", "site": sid, "binding_position": label,
+             "expected": "format_ident!(\"{}\", Self::escape_keyword(..)) or a listed known finding", "witness": witness}
+        if witness:
+            if not any(f.get("position") == witness["position"] and f.get("name") == witness["name"] for f in fails):
+                fails.append({**witness, "class": "rust_keyword", "site": sid,
+                              "expected": "same verdict as the neutral program", "unlisted_unescaped_sites": [sid]})
+        else:
+            chk.violation("tie-broken", {"theorem_or_tie": "site table: new unescaped site", **d}, no_input=True)
+
+    # ---- known findings: re-run each witness
+    for f in known:
+        w = f.get("witness") or {}
+        if "position" in w and w["position"] in TEMPLATES:
+            c = instantiate(w["position"], w["name"])
+            rr = run_emit(binary, [c])[tuple(c["id"])]
+            nbr = results[(w["position"], neutral_for(w["name"], w["position"]))]
+            still = False
+            if w.get("level") == "rustc":
+                rb = rustc_batch({"w": rr["rust"]}, "kf") if rr["stage"] == "ok" else {"w": (False, rr["msg"])}
+                still = not rb["w"][0]
+            elif w.get("level") == "tokens":
+                want = subst_tokens(nbr["tokens"], neutral_for(w["name"], w["position"]), w["name"], w["name"])
+                still = rr["stage"] == "ok" and want != rr["tokens"]
+            else:
+                still = not (rr["stage"] == "ok" and rr["syn_ok"])
+            if still:
+                extra_txt = ""
+                if f.get("sites"):
+                    live = [s for s in f["sites"] if s in unescaped_now]
+                    extra_txt = " [%d/%d listed sites still unescaped]" % (len(live), len(f["sites"]))
+                chk.known(f["id"], "%s: %s%s" % (f["id"], f["summary"], extra_txt))
+
+    chk.coverage["rule"] = ("every binding-position program x (every Rust keyword Incan does not reserve + not-rawable names + fixed/prelude/"
+                            "temporary names + case-class variants + PRNG identifiers + Incan keywords as malformed stream), each compared with the "
+                            "same program for a neutral name of the same case class: verdict of the real pipeline (stage, syn re-parse), token "
+                            "stream modulo the model's emit_ident, rustc for a batch; a case is non-trivial when the pipeline produced Rust")
+    chk.coverage["distribution"] = dist
+    chk.coverage["positions"] = positions
+    chk.coverage["labels_not_exercised"] = sorted(l for l in label_sites if not any(l in TEMPLATES[p]["labels"] for p in positions))
+    chk.coverage["names"] = {"rust_keywords_unreserved": kw_names, "not_rawable": not_rawable, "fixed_probe": fixed_probe,
+                             "case_variants": case_names, "random": rnd, "illegal": illegal}
+    chk.coverage["traces_validated_against_impl"] = (len(stream) + len(extra) + len(judged)) if model_ok else 0
+    chk.coverage["correspondence_mismatches"] = len(corr_bad)
+    chk.coverage["rustc_programs"] = len(rust_programs)
+    chk.coverage["rustc_rejected_renamings"] = rustc_diff
+    for pos, n in (("function", "loop"), ("variable", "loop"), ("field", "struct"), ("class_name", "incan_stdlib"), ("fstring_variable", "__parts")):
+        if (pos, n) in results:
+            rr = results[(pos, n)]
+            chk.sample("%s %s -> %s %s" % (pos, n, rr["stage"], rr["msg"][:80]))
+
+    for f in fails[:25]:
+        chk.violation("failing-input", f)
+    if not fails:
+        if corr_bad:
+            chk.violation("correspondence-broken", {"theorem_or_tie": "C13 model/implementation correspondence", "cases": corr_bad[:10]}, no_input=True)
+        if not res["proofs_ok"] or not res["tie_ok"]:
+            chk.violation("proof-broken", {"theorem_or_tie": res["broken"]}, no_input=True)
+
+
+def replay(path):
+    data = json.load(open(path))
+    binary = vlib.build_harness("debug")
+    for v in data["violations"]:
+        d = v["detail"]
+        if "position" in d and d.get("position") in TEMPLATES:
+            n, pos = d["name"], d["position"]
+            nb = neutral_for(n, pos)
+            rs = run_emit(binary, [instantiate(pos, n), instantiate(pos, nb)])
+            a, b = rs[(pos, n)], rs[(pos, nb)]
+            print("position %s\n--- source\n%s" % (pos, instantiate(pos, n)["src"]))
+            print("implementation  %-8s: stage=%s syn_ok=%s %s" % (n, a["stage"], a["syn_ok"], a["msg"]))
+            print("implementation  %-8s: stage=%s syn_ok=%s %s" % (nb, b["stage"], b["syn_ok"], b["msg"]))
+            try:
+                m = model_names([n])[n]
+                print("model           %-8s: legal=%s escape_keyword=%s valid_rust_ident=%s" % (n, m["legal"], m["esc"], m["valid"]))
+            except vlib.Infra as e:
+                print("model: not available (%s)" % e)
+            print("oracle          : expected %s" % d.get("expected"))
+            if a["stage"] == "ok" and "rustc" in json.dumps(d.get("actual", {})):
+                print("rustc           :", rustc_batch({"x": a["rust"]}, "replay")["x"])
+        else:
+            print(json.dumps(d, indent=1))
+    return 0
